@@ -526,3 +526,82 @@ PROPS["C13"] = Prop(
     trusted=["hand-written model of rust/dual/linalg/linalg_dual.rs and linalg_f64.rs (lean/RateslibModel/Model/Linalg.lean: "
              "matrices as functions, loops as folds), tied to the code by the correspondence run"] + _dual_trusted[:1],
     assumptions=_dual_assume + ["conditioning / rounding not modelled; NaN handling outside the generators"])
+
+
+# ---------------------------------------------------------------------------------------------
+# splines
+
+def _cls_spl(t, impl):
+    op = t[0]
+    if op == "bsplev":
+        return "bsplev:k=%s" % t[3], impl not in ("h0000000000000000", "h8000000000000000")
+    if op == "bspldnev":
+        return "bspldnev:k=%s:m=%s" % (t[3], t[4]), impl not in ("h0000000000000000", "h8000000000000000")
+    if op == "basisrow":
+        return "basisrow:k=%s" % t[2], True
+    if op in ("ppev", "ppevpoly"):
+        return "%s:m=%s:%s" % (op, t[2], _kind_of(impl)), True
+    if op in ("csolve", "spline", "spc"):
+        return "%s:%s" % (op, impl.split(" ", 1)[0]), True
+    return None, False
+
+
+def _oracle_c14(t, impl):
+    """model-free: inside the domain the basis is non-negative and sums to one; outside it vanishes"""
+    if t[0] != "basisrow" or not impl.startswith("B"):
+        return None
+    x = f_of_hex(t[1])
+    k = int(t[2])
+    knots = [f_of_hex(h) for h in t[4:]]
+    vals = [f_of_hex(h) for h in impl.split()[1:]]
+    if any(v < 0 for v in vals):
+        return "negative basis value %r" % min(vals)
+    for i, v in enumerate(vals):
+        if v != 0 and not (knots[i] <= x <= knots[i + k]):
+            return "basis function %d is %r outside its support" % (i, v)
+    inside = knots[0] <= x <= knots[-1]
+    s = sum(vals)
+    if inside and abs(s - 1.0) > 1e-9:
+        return "basis sums to %r at x=%r inside the domain" % (s, x)
+    if not inside and s != 0:
+        return "basis does not vanish outside the domain"
+    return None
+
+
+def _oracle_c15(t, impl):
+    """model-free: a spline solved on polynomial data of degree < k reproduces the polynomial and its derivatives"""
+    if t[0] != "ppevpoly":
+        return None
+    want = f_of_hex(t[4])
+    tk = impl.split()
+    if tk[0] == "F":
+        got = f_of_hex(tk[1])
+    elif tk[0] in ("D", "D2"):
+        got = f_of_hex(tk[1])
+    else:
+        return None
+    if abs(got - want) > 1e-7 * max(1.0, abs(want)):
+        return "spline gives %r, polynomial gives %r" % (got, want)
+    return None
+
+
+_spl_trusted = [
+    "hand-written model of rust/splines/spline.rs (lean/RateslibModel/Model/Spline.lean), tied to the code by the "
+    "correspondence run; csolve uses the fdsolve model of C13",
+]
+
+PROPS["C14"] = Prop(
+    rule="orders 1..6, knot vectors with k-fold end knots and 0..5 interior positions of multiplicity 1..min(k-1,3) on a "
+         "dyadic grid; every basis index, m = 0..k, evaluated at every knot, both end points, span midpoints, random points "
+         "and outside points; plus whole basis rows for the model-free oracle (non-negative, local support, sum = 1)",
+    classify=_cls_spl, mode="close", exhaustive=lambda tier: False, trusted=_spl_trusted, oracle=_oracle_c14,
+    assumptions=["f64 rounding modelled (theorems over ordered fields)"])
+
+PROPS["C15"] = Prop(
+    rule="orders 2..6, simple interior knots, sites = Greville abscissae (plain interpolation) or knots with 2nd-derivative "
+         "end conditions (natural cubic), data polynomial of degree < k or random, float / Dual / Dual2 data each tagged with "
+         "its own variable; coefficients, values and derivatives m = 0..3 at sites, knots, end points and a grid; dual and "
+         "dual2 abscissae; mismatched site counts; model-free oracle: polynomial reproduction",
+    classify=_cls_spl, mode="close", rtol=1e-7, exhaustive=lambda tier: False, trusted=_spl_trusted, oracle=_oracle_c15,
+    assumptions=["non-singularity of the collocation matrix (Schoenberg-Whitney) is a generator precondition",
+                 "f64 rounding modelled"])
